@@ -140,6 +140,62 @@ impl<'a> LinkBuilder<'a> {
     }
 }
 
+#[cfg(feature = "verif-hooks")]
+pub struct PendingLink {
+    router_tx: Sender<(ConnectionId, Event)>,
+    link_rx: Receiver<()>,
+    outgoing_data_buffer: Arc<Mutex<VecDeque<Notification>>>,
+    incoming_data_buffer: Arc<Mutex<VecDeque<Packet>>>,
+}
+
+#[cfg(feature = "verif-hooks")]
+impl<'a> LinkBuilder<'a> {
+    /// Same as `build` up to and including sending `Event::Connect`
+    pub fn verif_begin(self) -> Result<PendingLink, LinkError> {
+        let mut connection = Connection::new(
+            self.tenant_id,
+            self.client_id.to_owned(),
+            self.clean_session,
+            self.dynamic_filters,
+        );
+        connection
+            .last_will(self.last_will, self.last_will_properties)
+            .topic_alias_max(self.topic_alias_max);
+        let incoming = Incoming::new(connection.client_id.to_owned());
+        let (outgoing, link_rx) = Outgoing::new(connection.client_id.to_owned());
+        let outgoing_data_buffer = outgoing.buffer();
+        let incoming_data_buffer = incoming.buffer();
+        let event = Event::Connect {
+            connection,
+            incoming,
+            outgoing,
+        };
+        self.router_tx.send((0, event))?;
+        Ok(PendingLink {
+            router_tx: self.router_tx,
+            link_rx,
+            outgoing_data_buffer,
+            incoming_data_buffer,
+        })
+    }
+}
+
+#[cfg(feature = "verif-hooks")]
+impl PendingLink {
+    /// Same as the tail of `build`, with a non-blocking receive
+    pub fn finish(self) -> Result<(LinkTx, LinkRx, Notification), LinkError> {
+        self.link_rx.try_recv().map_err(|_| LinkError::NotConnectionAck)?;
+        let notification = self.outgoing_data_buffer.lock().pop_front().unwrap();
+        let id = match notification {
+            Notification::DeviceAck(Ack::ConnAck(id, ..)) => id,
+            _message => return Err(LinkError::NotConnectionAck),
+        };
+        let tx = LinkTx::new(id, self.router_tx.clone(), self.incoming_data_buffer);
+        let rx = LinkRx::new(id, self.router_tx, self.link_rx, self.outgoing_data_buffer);
+        Ok((tx, rx, notification))
+    }
+}
+
 pub struct LinkTx {
     pub(crate) connection_id: ConnectionId,
     router_tx: Sender<(ConnectionId, Event)>,
